@@ -5,11 +5,13 @@ from ._util import H, KGroup
 def plan(tier, seed):
     D = ("write_with_options::<f64> with Dragonbox stubbed to a symbolic decimal: semantic oracle (decoded value == decimal rounded to max digits, "
          "half-even / truncate; >= min digits; notation by break points; trim_floats; configured punctuation)")
-    hs = [H("wf::d1_std_4", D, "mantissa < 10^4, exp10 in -340..300, max/min digits 0..8, breaks |b|<=12, symbolic punctuation")]
+    hs = [H("wf::d1_pos_3", D, "mantissa < 10^3, exp10 in -8..8, max/min digits 0..4, default breaks, symbolic punctuation/round/trim"),
+          H("wf::d1_sci_3", D, "mantissa < 10^3, exp10 in -340..300, max/min digits 0..4, default breaks"),
+          H("wf::d1_brk_3", D, "mantissa < 10^3, exp10 in -14..14, max/min digits 0..3, symbolic breaks |b|<=10")]
     if tier == "thorough":
-        hs.append(H("wf::d1_std_6", D, "mantissa < 10^6"))
+        hs += [H("wf::d1_pos_5", D, "mantissa < 10^5, exp10 in -10..10, max/min 0..6"), H("wf::d1_all_5", D, "mantissa < 10^5, all exponents, max/min 0..8, breaks |b|<=12")]
     return {
-        "kani": [KGroup("D", hs, timeout=3000 if tier == "quick" else 14400, jobs=2, mem_gb=16, stubbing=True)],
+        "kani": [KGroup("D", hs, timeout=3000 if tier == "quick" else 14400, jobs=3, mem_gb=16, stubbing=True)],
         "functions_encoded": ["lexical_write_float::algorithm::{write_float, write_float_scientific, write_float_positive_exponent, write_float_negative_exponent, write_digits_u64}",
                               "shared::{truncate_and_round_decimal, round_up, write_exponent}", "Options::buffer_size_const"],
         "bounds": ["decimal, STANDARD format, f64; shortest-digit mantissas below the stated bound (no trailing zero), every decimal exponent, options in the stated ranges"],
